@@ -58,7 +58,7 @@ pub mod host {
             Ok(m)
         }
     }
-    impl<C: Context, K: Writable<C>, V: Writable<C>> Writable<C> for HashMap<K, V> {
+    impl<C: Context, K: Writable<C> + Ord, V: Writable<C>> Writable<C> for HashMap<K, V> {
         fn write_to<T: ?Sized + Writer<C>>(&self, writer: &mut T) -> Result<(), C::Error> {
             (self.len() as u32).write_to(writer)?;
             for (k, v) in self.iter() {
